@@ -149,6 +149,11 @@ pub fn ps_verify_ref(pk: &PkAtoms, sigma1: &G1Affine, sigma2: &G1Affine, msg: &[
     if bool::from(sigma1.is_identity()) {
         return false;
     }
+    // a signature is a pair of elements of the prime-order group; curve points outside it pair to 1 with
+    // everything and are not signatures
+    if !bool::from(sigma1.is_torsion_free()) || !bool::from(sigma2.is_torsion_free()) {
+        return false;
+    }
     let mut acc = G2Projective::from(pk.x2);
     for i in 0..msg.len() {
         acc += G2Projective::from(pk.y2s[i]) * msg[i];
@@ -220,7 +225,8 @@ pub fn sigproof_ref(
     resp_bf: &Scalar,
     resps: &[Scalar],
 ) -> (bool, bool, bool) {
-    let wf = !bool::from(s1.is_identity());
+    // well formed: a pair of elements of the prime-order group, the first one not the identity
+    let wf = !bool::from(s1.is_identity()) && bool::from(s1.is_torsion_free()) && bool::from(s2.is_torsion_free());
     let sch = schnorr_ref_g2(&pk.g2, &pk.y2s, com, t, c, resp_bf, resps);
     let link = pairing(s1, &(G2Projective::from(pk.x2) + G2Projective::from(*com)).to_affine())
         == pairing(s2, &pk.g2);
